@@ -390,8 +390,8 @@ def to_json(case):
 def plan(tier, seed):
     if tier == "quick":
         specs = [{"kind": "files", "files": [f]} for f in corpus.SMALL[:6] + ["488d.pdb"]]
-        specs += [{"kind": "synthetic", "examples": 60, "seed": seed * 1000 + k} for k in range(10)]
-        specs += [{"kind": "cli", "examples": 15, "seed": seed * 1000 + 100 + k} for k in range(4)]
+        specs += [{"kind": "synthetic", "examples": 200, "seed": seed * 1000 + k} for k in range(12)]
+        specs += [{"kind": "cli", "examples": 40, "seed": seed * 1000 + 100 + k} for k in range(4)]
     else:
         specs = [{"kind": "files", "files": [f]} for f in corpus.all_files()]
         specs += [{"kind": "synthetic", "examples": 1500, "seed": seed * 1000 + k} for k in range(16)]
